@@ -326,6 +326,14 @@ def oracle_op(h, c, cur_raw, tgt_raw):
     return "Heating" if cur_raw < tgt_raw else ("Cooling" if cur_raw > tgt_raw else "Idle")
 
 
+def _other_side(cur, tgt):
+    """a user setpoint on the OTHER side of the current temperature than the regulated target (economy / standby lower the
+    regulated one and keep the user's): a heater that compared with the wrong word would report another operation"""
+    if cur < tgt:
+        return cur - 1 if cur > 0 else cur
+    return cur + 1 if cur < 65535 else cur
+
+
 def fl(x):
     return "n" if x is None else ("1" if x else "0")
 
@@ -369,7 +377,7 @@ def check_heater(ctx, cfg, log, drop, lines, expect, combos):
             viol(ctx, f"unit:{units}", {"kind": "unit", "cfg": cfg, "log": log, "units": units}, want, view)
         for hraw, hon in flag_states(ha):
             for craw, con in flag_states(ca):
-                for cur, tgt in words:
+                for cur, tgt, setp in [(c_, t_, s_) for (c_, t_) in words for s_ in (t_, _other_side(c_, t_))]:
                     b = ub
                     if ha is not None:
                         b = poke(b, ha, hraw)
@@ -377,7 +385,7 @@ def check_heater(ctx, cfg, log, drop, lines, expect, combos):
                         b = poke(b, ca, craw)
                     b = poke(b, acc["DisplayedTempG"], cur)
                     b = poke(b, acc["RealSetPointG"], tgt)
-                    b = poke(b, acc["SetpointG"], tgt)
+                    b = poke(b, acc["SetpointG"], setp)          # the user's setpoint is a different word from the regulated one
                     spa.set_block(b)
                     try:
                         op = heater.current_operation
@@ -393,14 +401,14 @@ def check_heater(ctx, cfg, log, drop, lines, expect, combos):
                     want = oracle_op(hon, con, cur, tgt)
                     combos.add((fl(hon), fl(con), (cur > tgt) - (cur < tgt), units))
                     inp = {"kind": "ladder", "cfg": cfg, "log": log, "drop": list(drop), "units": units, "heating_raw": hraw,
-                           "cooling_raw": craw, "current_raw": cur, "target_raw": tgt}
+                           "cooling_raw": craw, "current_raw": cur, "target_raw": tgt, "setpoint_raw": setp}
                     if op != want:
                         viol(ctx, f"ladder:h={fl(hon)}:c={fl(con)}:cmp={(cur > tgt) - (cur < tgt)}", inp, want, op)
                     if ison != (hon, con):
                         viol(ctx, f"ison:{'bool' if ha is not None and ha.type == 'Bool' else 'enum'}:{hraw}:{craw}", inp, (hon, con), ison)
-                    okt = all(nearest_double_ok(exact_read("C" if units == "C" else "F", r), v) for r, v in zip((cur, tgt, tgt), temps))
+                    okt = all(nearest_double_ok(exact_read("C" if units == "C" else "F", r), v) for r, v in zip((cur, tgt, setp), temps))
                     if not okt:
-                        viol(ctx, f"heater-temps:{units}:{cur}:{tgt}", inp, "heater temperatures are the accessor values", temps)
+                        viol(ctx, f"heater-temps:{units}:{cur}:{tgt}:{'same' if setp == tgt else 'split'}", inp, "heater temperatures are the accessor values", temps)
     # is_on of the real binary sensors vs the model's isOn
     from geckolib.automation.sensors import GeckoBinarySensor
     for a in (ha, ca):
@@ -697,14 +705,18 @@ def replay(inp):
         if ca is not None:
             b = poke(b, ca, inp["cooling_raw"])
             con = dict(flag_states(ca))[inp["cooling_raw"]]
-        for key, w in (("DisplayedTempG", inp["current_raw"]), ("RealSetPointG", inp["target_raw"]), ("SetpointG", inp["target_raw"])):
+        for key, w in (("DisplayedTempG", inp["current_raw"]), ("RealSetPointG", inp["target_raw"]), ("SetpointG", inp.get("setpoint_raw", inp["target_raw"]))):
             b = poke(b, acc[key], w)
         spa.set_block(b)
         try:
             op = heater.current_operation
+            temps = (heater.current_temperature, heater.real_target_temperature, heater.target_temperature)
         except Exception as e:  # noqa
-            op = f"raised {type(e).__name__}: {e}"
-        return op != oracle_op(hon, con, inp["current_raw"], inp["target_raw"]), op
+            op, temps = f"raised {type(e).__name__}: {e}", None
+        u = "C" if inp["units"] == "C" else "F"
+        okt = temps is not None and all(nearest_double_ok(exact_read(u, r), v) for r, v in zip(
+            (inp["current_raw"], inp["target_raw"], inp.get("setpoint_raw", inp["target_raw"])), temps))
+        return op != oracle_op(hon, con, inp["current_raw"], inp["target_raw"]) or not okt, (op, temps)
     if k in ("item-value", "item-rw"):
         spa = Spa(inp["cfg"], inp["log"])
         a = spa.accessors[inp["tag"]]
